@@ -44,6 +44,7 @@ static vh::Stats g_st;
 static bool g_nofork = false;
 static double g_tscale = 1.;
 static int64_t g_debug_ray = -1;
+static double g_inject = 0.; // self test of the monitor: relative error injected into the observed deposits
 
 // ---------------------------------------------------------------------------
 // process plumbing
@@ -55,8 +56,38 @@ struct Shared {
   volatile int nw;
   volatile int regime; // index into g_regimes or -1
   volatile double w[16];
+  uint64_t keyhash[128];
+  uint32_t keycount[128];
 };
 static Shared *g_sh = nullptr;
+// print at most g_key_print_limit lines per key and shard (all processes of the shard share the table); every
+// violation is still counted (DONE total and the "violations[key]" counters)
+static uint32_t g_key_print_limit = 1;
+static bool c16_should_print(const char *key) {
+  uint64_t h = 1469598103934665603ull;
+  for (const char *c = key; *c; ++c) h = (h ^ (unsigned char)*c) * 1099511628211ull;
+  if (!h) h = 1;
+  for (int probe = 0; probe < 128; ++probe) {
+    const int slot = (int)((h + probe) % 128);
+    uint64_t cur = g_sh->keyhash[slot];
+    if (cur == 0) cur = __sync_val_compare_and_swap(&g_sh->keyhash[slot], 0ull, h) ? g_sh->keyhash[slot] : h;
+    if (cur == h) return __sync_fetch_and_add(&g_sh->keycount[slot], 1u) < g_key_print_limit;
+  }
+  return true;
+}
+#define C16_VIOL(key, caseid, ...)                                                                                                         \
+  do {                                                                                                                                   \
+    const std::string c16_k(key);                                                                                                        \
+    g_st.inc("violations[" + c16_k + "]");                                                                                               \
+    if (c16_should_print(c16_k.c_str())) {                                                                                               \
+      const uint64_t c16_lim = vh::g_viol_print_limit;                                                                                   \
+      vh::g_viol_print_limit = (uint64_t)-1;                                                                                             \
+      VH_VIOL(c16_k.c_str(), caseid, __VA_ARGS__);                                                                                       \
+      vh::g_viol_print_limit = c16_lim;                                                                                                  \
+    } else {                                                                                                                             \
+      ++vh::g_nviol;                                                                                                                     \
+    }                                                                                                                                    \
+  } while (0)
 enum Phase { PH_CONSTRUCT = 0, PH_STRUCT, PH_NEIGHBOURS, PH_ENUM, PH_LOCATE, PH_RAY, PH_QUERY, PH_REFINE, PH_OTHER, PH_OCTREE_BUILD, PH_PL_BUILD, PH_OCTREE_QUERY, PH_PL_QUERY };
 static const char *g_phase_names[] = {"construct", "structure", "neighbours", "enumerate", "locate", "ray", "query", "refine", "other", "octree-construct", "pointlocations-construct", "octree-query", "pointlocations-query"};
 
@@ -100,7 +131,7 @@ static bool wait_child(pid_t pid, double budget_s, int &status) {
       if (clock_gettime(cid, &ts) == 0) cpu = ts.tv_sec + 1e-9 * ts.tv_nsec;
     }
     const double wall = now_s() - t0;
-    if ((cpu >= 0. && cpu > budget_s) || wall > 30. * budget_s) {
+    if ((cpu >= 0. && cpu > budget_s) || wall > std::fmax(30. * budget_s, 600.)) {
       kill(pid, SIGKILL);
       waitpid(pid, &status, 0);
       return true;
@@ -112,9 +143,11 @@ static bool wait_child(pid_t pid, double budget_s, int &status) {
 static bool g_keep_stderr = false;
 static void child_begin(uint64_t print_limit) {
   // backstops: bounded memory, and the library's diagnostics do not flood the parent
+#if !defined(__SANITIZE_ADDRESS__) // (the sanitizer reserves terabytes of address space)
   struct rlimit rl;
   rl.rlim_cur = rl.rlim_max = (rlim_t)6 << 30;
   setrlimit(RLIMIT_AS, &rl);
+#endif
   if (!g_keep_stderr) {
     const int fd = open("/dev/null", O_WRONLY);
     if (fd >= 0) {
@@ -176,18 +209,18 @@ static void run_batch(const std::string &fam, int phase, uint64_t caseid, int64_
       child_end();
     }
     int status = 0;
-    const bool to = wait_child(pid, std::fmax(timeout_s, 1. + 0.004 * (double)(nops - start)) * g_tscale, status);
+    const bool to = wait_child(pid, std::fmax(timeout_s, 0.6 + 0.004 * (double)(nops - start)) * g_tscale, status);
     if (!to && WIFEXITED(status) && WEXITSTATUS(status) == 0) break;
     const int64_t at = g_sh->cur;
     const int aph = g_sh->phase;
     std::string key = fam + (to ? "/hang/" : "/abort/") + g_phase_names[aph];
     if (g_sh->regime >= 0) key += std::string("@") + g_regimes[g_sh->regime];
-    VH_VIOL(key.c_str(), caseid, "operation %" PRId64 " of the %s battery: process %s; input (%s)", at, g_phase_names[phase],
+    C16_VIOL(key.c_str(), caseid, "operation %" PRId64 " of the %s battery: process %s; input (%s)", at, g_phase_names[phase],
             status_string(to, status).c_str(), w_string().c_str());
     g_st.inc(std::string("crashes_") + g_phase_names[phase]);
     start = at + 1;
     if (to) ++hangs;
-    if (++failures >= 300 || hangs >= 3) {
+    if (++failures >= 300 || hangs >= 2) {
       g_st.inc("ops_skipped_after_repeated_crashes", (uint64_t)(nops - start));
       break;
     }
@@ -217,7 +250,7 @@ template < class F > static void run_case(const std::string &fam, uint64_t casei
   if (!to && WIFEXITED(status) && WEXITSTATUS(status) == 0) return;
   const int ph = g_sh->phase;
   const std::string key = fam + (to ? "/hang/" : "/abort/") + g_phase_names[ph];
-  VH_VIOL(key.c_str(), caseid, "case process %s in phase %s; input (%s)", status_string(to, status).c_str(), g_phase_names[ph],
+  C16_VIOL(key.c_str(), caseid, "case process %s in phase %s; input (%s)", status_string(to, status).c_str(), g_phase_names[ph],
           w_string().c_str());
   g_st.inc("case_crashes");
 }
@@ -384,6 +417,7 @@ struct RayTol {
   double dmin;         // smallest non-zero |direction component| (box grids) / 1 (Voronoi: uses cosmin)
   double nudge_allow;  // allowed un-deposited forward displacement (Voronoi epsilon pushes)
   double base_delta;   // extra absolute slack on wall parameters
+  double plane_tol;    // positional accuracy of the cell faces themselves (Voronoi construction tolerance), divided by the incidence cosine
 };
 
 static CV random_direction(vh::Rng &r) {
@@ -410,7 +444,7 @@ static void harvest(DensityGrid &grid, const Opacity &O, RayObs &obs) {
     if (c >= n) break;
     const double jH = iv.get_mean_intensity(ION_H_n), jHe = iv.get_mean_intensity(ION_He_n);
     if (jH != 0. || jHe != 0.) {
-      obs.pH[c] = jH / (O.weight * O.sH);
+      obs.pH[c] = jH / (O.weight * O.sH) * (1. + g_inject);
       obs.pHe[c] = jHe / (O.weight * O.sHe);
       iv.set_mean_intensity(ION_H_n, 0.);
       iv.set_mean_intensity(ION_He_n, 0.);
@@ -426,17 +460,21 @@ static void check_ray(const std::string &fam, const std::string &regime, uint64_
   const size_t ncell = obs.pH.size();
   bool skip_absorbing_cell = false;
   auto viol = [&](const char *clause, const char *fmt, double a, double b, double c) {
-    const std::string key = fam + "/ray/" + clause + ((D.per[0] || D.per[1] || D.per[2]) ? "@periodic" : "@open");
-    char buf[256];
-    std::snprintf(buf, sizeof buf, fmt, a, b, c);
-    VH_VIOL(key.c_str(), caseid, "ray %" PRId64 " (%s): %s | start=(%.17g,%.17g,%.17g) dir=(%.17g,%.17g,%.17g) tau=%.17g %s", rayid, regime.c_str(), buf, o.x(), o.y(), o.z(), d.x(),
+    // key groups: all geometric clauses (deposited chords, path sum, end point, absorbing cell) share ".../ray/path"
+    std::string group = clause;
+    if (group != "tau-used" && group != "flag" && group != "estimators-disagree") group = "path";
+    const std::string key = fam + "/ray/" + group + ((D.per[0] || D.per[1] || D.per[2]) ? "@periodic" : "@open");
+    char buf[300];
+    const int pre = std::snprintf(buf, sizeof buf, "[%s] ", clause);
+    std::snprintf(buf + pre, sizeof buf - pre, fmt, a, b, c);
+    C16_VIOL(key.c_str(), caseid, "ray %" PRId64 " (%s): %s | start=(%.17g,%.17g,%.17g) dir=(%.17g,%.17g,%.17g) tau=%.17g %s", rayid, regime.c_str(), buf, o.x(), o.y(), o.z(), d.x(),
             d.y(), d.z(), tau_target, obs.escaped ? "reported-escaped" : "reported-absorbed");
   };
   auto viol_plain = [&](const char *clause, const char *fmt, double a, double b, double c) {
     const std::string key = fam + "/ray/" + clause;
     char buf[256];
     std::snprintf(buf, sizeof buf, fmt, a, b, c);
-    VH_VIOL(key.c_str(), caseid, "ray %" PRId64 " (%s): %s | start=(%.17g,%.17g,%.17g) dir=(%.17g,%.17g,%.17g) tau=%.17g", rayid, regime.c_str(), buf, o.x(), o.y(), o.z(), d.x(), d.y(), d.z(),
+    C16_VIOL(key.c_str(), caseid, "ray %" PRId64 " (%s): %s | start=(%.17g,%.17g,%.17g) dir=(%.17g,%.17g,%.17g) tau=%.17g", rayid, regime.c_str(), buf, o.x(), o.y(), o.z(), d.x(), d.y(), d.z(),
             tau_target);
   };
   // totals
@@ -470,7 +508,8 @@ static void check_ray(const std::string &fam, const std::string &regime, uint64_
   }
   dist = dot(endu - o, d);
   const double nudge = dist - S;
-  const double delta = 2. * pos_err / (T.dmin * cosmin) + T.base_delta + std::fmax(0., nudge) + 4. * EPS * D.L;
+  const double delta = 2. * pos_err / (T.dmin * cosmin) + T.plane_tol / cosmin + T.base_delta + std::fmax(0., nudge) + 4. * EPS * D.L;
+  const double tolc = 2. * delta * (1 + 0.01 * k) + 8. * EPS * S * (k + 1); // tolerance of one deposited chord / of the total path
   const bool ill = !(delta < 0.05 * min_cell_size);
   g_st.maxd(fam + "_max_delta_over_L", delta / D.L);
   if (ill) g_st.inc(fam + "_rays_ill_conditioned_percell_skipped");
@@ -487,8 +526,9 @@ static void check_ray(const std::string &fam, const std::string &regime, uint64_
     double wd = DBL_MAX;
     for (int i = 0; i < 3; ++i)
       if (!D.per[i]) wd = std::fmin(wd, std::fmin(std::fabs(obs.end[i] - D.lo[i]), std::fabs(obs.end[i] - D.hi[i])));
-    if (wd > 4. * pos_err + 4. * EPS * D.P + 4. * delta) {
-      viol_plain("escaped-inside-box", "reported as escaped, but the end position (%.17g,%.17g,%.17g) is inside the box", obs.end.x(), obs.end.y(), obs.end.z());
+    const bool stopped_short = R.finite_exit && S < R.t_exit - (tolc + T.nudge_allow);
+    if (wd > 4. * pos_err + 4. * EPS * D.P + 4. * delta || stopped_short) {
+      viol_plain("escaped-inside-box", "reported as escaped, but the photon stopped inside the box at (%.17g,%.17g,%.17g)", obs.end.x(), obs.end.y(), obs.end.z());
       g_st.inc(fam + "_rays_escaped_inside_box");
       obs.escaped = false;
       skip_absorbing_cell = true;
@@ -523,7 +563,12 @@ static void check_ray(const std::string &fam, const std::string &regime, uint64_
     }
   }
   // (b) optical depth used
-  const double ttol = (64. + 8. * k) * EPS * (tau_target + tau_touched) + 1e-300;
+  // round-off of the optical depth bookkeeping: relative to the target plus the full optical depth of the cells involved
+  // (the surplus correction in the last cell cancels against that cell's full optical depth; a cell chord is < 2 L)
+  double kdep = 0.;
+  for (size_t c = 0; c < ncell; ++c)
+    if (obs.pH[c] != 0.) kdep = std::fmax(kdep, O.kappa[c]);
+  const double ttol = (64. + 8. * k) * EPS * (tau_target + tau_touched + 2. * kdep * D.L) + 1e-300;
   if (!obs.escaped) {
     if (std::fabs(tau_used - tau_target) > ttol) viol("tau-used", "absorbed, but sum opacity*path = %.17g differs from the target by %.3g (tolerance %.3g)", tau_used, tau_used - tau_target, ttol);
   } else {
@@ -534,7 +579,7 @@ static void check_ray(const std::string &fam, const std::string &regime, uint64_
     for (size_t c = 0; c < ncell && nbad < 2; ++c) {
       const double e = expd[c];
       if (obs.pH[c] == 0. && e == 0.) continue;
-      const double tol = 2. * delta;
+      const double tol = tolc;
       if (std::fabs(obs.pH[c] - e) > tol) {
         ++nbad;
         viol("cell-path", "cell %.0f: deposited path %.17g, chord of the straight line %.17g", (double)c, obs.pH[c], e);
@@ -549,11 +594,13 @@ static void check_ray(const std::string &fam, const std::string &regime, uint64_
     const bool oracle_abs = tau_total > tau_target;
     if (std::fabs(tau_total - tau_target) <= dtau) {
       g_st.inc(fam + "_rays_flag_tie");
-    } else if (oracle_abs == obs.escaped) {
-      viol("flag", "oracle optical depth up to the box wall is %.17g (tie width %.3g): the reported flag is wrong", tau_total, dtau, 0.);
+    } else if (oracle_abs && obs.escaped) {
+      viol_plain("escaped-inside-box", "reported as escaped although the optical depth up to the box wall, %.17g, exceeds the target (tie width %.3g)", tau_total, dtau, 0.);
+    } else if (!oracle_abs && !obs.escaped) {
+      viol("flag", "reported as absorbed although the optical depth up to the box wall is only %.17g (tie width %.3g)", tau_total, dtau, 0.);
     }
     if (obs.escaped) {
-      if (std::fabs(S - R.t_exit) > 2. * delta * (1 + 0.01 * k) + 8. * EPS * S * (k + 1) + T.nudge_allow)
+      if (std::fabs(S - R.t_exit) > tolc + T.nudge_allow)
         viol("escape-path", "escaped after path %.17g but the box wall is at %.17g (tolerance %.3g)", S, R.t_exit, 2. * delta);
     }
     // oracle self check: the cells tile the ray
@@ -684,20 +731,20 @@ static void check_iteration(const std::string &fam, uint64_t caseid, DensityGrid
   for (auto it = grid.begin(); it != grid.end(); ++it) {
     const size_t c = it.get_index();
     if (c >= n) {
-      VH_VIOL((fam + "/iterate/index-out-of-range").c_str(), caseid, "iterator visits index %zu of %zu cells", c, n);
+      C16_VIOL((fam + "/iterate/index-out-of-range").c_str(), caseid, "iterator visits index %zu of %zu cells", c, n);
       bad = true;
       break;
     }
     ++seen[c];
     if (++steps > 4 * n + 16) {
-      VH_VIOL((fam + "/iterate/does-not-end").c_str(), caseid, "begin()..end() made more than %zu steps for %zu cells", steps, n);
+      C16_VIOL((fam + "/iterate/does-not-end").c_str(), caseid, "begin()..end() made more than %zu steps for %zu cells", steps, n);
       bad = true;
       break;
     }
   }
   for (size_t c = 0; c < n && !bad; ++c)
     if (seen[c] != 1) {
-      VH_VIOL((fam + "/iterate/not-exactly-once").c_str(), caseid, "cell %zu visited %u times", c, seen[c]);
+      C16_VIOL((fam + "/iterate/not-exactly-once").c_str(), caseid, "cell %zu visited %u times", c, seen[c]);
       bad = true;
     }
   g_st.inc(fam + "_cells_iterated", steps);
@@ -716,8 +763,8 @@ static void check_volume(const std::string &fam, uint64_t caseid, DensityGrid &g
   const double vbox = D.side[0] * D.side[1] * D.side[2];
   const double rel = std::fabs((double)sum - vbox) / vbox;
   g_st.maxd(fam + "_max_rel_volume_error", rel);
-  if (!(rel <= reltol)) VH_VIOL((fam + "/volume-sum").c_str(), caseid, "sum of %zu cell volumes %.17g, box volume %.17g, rel. difference %.3g", n, (double)sum, vbox, rel);
-  if (!(vmin > 0.)) VH_VIOL((fam + "/volume-not-positive").c_str(), caseid, "smallest cell volume %.17g", vmin);
+  if (!(rel <= reltol)) C16_VIOL((fam + "/volume-sum").c_str(), caseid, "sum of %zu cell volumes %.17g, box volume %.17g, rel. difference %.3g", n, (double)sum, vbox, rel);
+  if (!(vmin > 0.)) C16_VIOL((fam + "/volume-not-positive").c_str(), caseid, "smallest cell volume %.17g", vmin);
   g_st.inc(fam + "_volume_sums");
 }
 
@@ -741,7 +788,7 @@ static void locate_battery(const std::string &fam, uint64_t caseid, DensityGrid 
     g_st.inc(fam + "_locates");
     g_st.inc(fam + "_locates_" + reg);
     if (idx >= n) {
-      VH_VIOL((fam + "/locate/index-out-of-range@" + reg).c_str(), caseid, "position (%.17g,%.17g,%.17g) [%a,%a,%a] inside the half-open box is located in cell %zu of %zu",
+      C16_VIOL((fam + "/locate/index-out-of-range@" + reg).c_str(), caseid, "position (%.17g,%.17g,%.17g) [%a,%a,%a] inside the half-open box is located in cell %zu of %zu",
               p.x(), p.y(), p.z(), p.x(), p.y(), p.z(), idx, n);
       return;
     }
@@ -749,14 +796,14 @@ static void locate_battery(const std::string &fam, uint64_t caseid, DensityGrid 
     for (int a = 0; a < 3; ++a) tol[a] = 8. * EPS * std::fmax(std::fabs(D.lo[a]), std::fabs(D.hi[a]));
     const ScanResult s = scan_cells(C, p, tol, idx);
     if (!s.located_loose) {
-      VH_VIOL((fam + "/locate/cell-does-not-contain@" + reg).c_str(), caseid,
+      C16_VIOL((fam + "/locate/cell-does-not-contain@" + reg).c_str(), caseid,
               "position (%.17g,%.17g,%.17g) located in cell %zu = [%.17g,%.17g]x[%.17g,%.17g]x[%.17g,%.17g] (tolerance %.3g)", p.x(), p.y(), p.z(), idx,
               C.lo[0][idx], C.hi[0][idx], C.lo[1][idx], C.hi[1][idx], C.lo[2][idx], C.hi[2][idx], tol[0]);
     }
-    if (s.nloose == 0) VH_VIOL((fam + "/locate/in-no-cell@" + reg).c_str(), caseid, "position (%.17g,%.17g,%.17g) lies in no cell box", p.x(), p.y(), p.z());
-    if (s.nstrict > 1) VH_VIOL((fam + "/locate/in-several-cells@" + reg).c_str(), caseid, "position (%.17g,%.17g,%.17g) lies strictly inside %zu cell boxes", p.x(), p.y(), p.z(), s.nstrict);
+    if (s.nloose == 0) C16_VIOL((fam + "/locate/in-no-cell@" + reg).c_str(), caseid, "position (%.17g,%.17g,%.17g) lies in no cell box", p.x(), p.y(), p.z());
+    if (s.nstrict > 1) C16_VIOL((fam + "/locate/in-several-cells@" + reg).c_str(), caseid, "position (%.17g,%.17g,%.17g) lies strictly inside %zu cell boxes", p.x(), p.y(), p.z(), s.nstrict);
     if (s.nstrict == 1 && s.first_strict != idx)
-      VH_VIOL((fam + "/locate/wrong-cell@" + reg).c_str(), caseid, "position (%.17g,%.17g,%.17g) is strictly inside cell %zu but located in %zu", p.x(), p.y(), p.z(), s.first_strict, idx);
+      C16_VIOL((fam + "/locate/wrong-cell@" + reg).c_str(), caseid, "position (%.17g,%.17g,%.17g) is strictly inside cell %zu but located in %zu", p.x(), p.y(), p.z(), s.first_strict, idx);
     if (s.nstrict == 1 && s.nloose == 1) g_st.inc(fam + "_locates_unique_strict");
     if (s.nloose > 1) g_st.inc(fam + "_locates_on_shared_boundary");
   });
@@ -881,7 +928,7 @@ static void ray_battery(const std::string &fam, uint64_t caseid, DensityGrid &gr
       for (size_t c = 0; c < C.size(); ++c)
         if (obs.pH[c] != 0.) pb("deposit", c);
     }
-    RayTol T{EPS * D.P, dmin, 0., 0.};
+    RayTol T{EPS * D.P, dmin, 0., 0., 0.};
     check_ray(fam, P.regime + (anyper ? "+periodic" : ""), caseid, i, D, R, O, obs, P.o, P.d, tau_target, T, mincell, !anyper);
     if (with_integrate && !anyper) {
       Photon ph2 = make_photon(O, P.o, P.d);
@@ -893,7 +940,7 @@ static void ray_battery(const std::string &fam, uint64_t caseid, DensityGrid &gr
       }
       const double delta = 2. * (8. + 4. * R.iv.size()) * EPS * D.P / dmin + 4. * EPS * D.L;
       if (std::fabs(ti - tt) > 2. * delta * ks + 64. * EPS * tt * (1 + R.iv.size()))
-        VH_VIOL((fam + "/ray/integrated-tau@" + P.regime).c_str(), caseid, "ray %" PRId64 ": integrate_optical_depth %.17g, oracle %.17g | start=(%.17g,%.17g,%.17g) dir=(%.17g,%.17g,%.17g)",
+        C16_VIOL((fam + "/ray/integrated-tau@" + P.regime).c_str(), caseid, "ray %" PRId64 ": integrate_optical_depth %.17g, oracle %.17g | start=(%.17g,%.17g,%.17g) dir=(%.17g,%.17g,%.17g)",
                 i, ti, tt, P.o.x(), P.o.y(), P.o.z(), P.d.x(), P.d.y(), P.d.z());
       g_st.inc(fam + "_integrated_tau_compared");
     }
@@ -916,7 +963,7 @@ static void cartesian_case(uint64_t caseid, vh::Rng r, int64_t nloc, int64_t nra
   set_w({D.lo[0], D.lo[1], D.lo[2], D.side[0], D.side[1], D.side[2], (double)nc[0], (double)nc[1], (double)nc[2], (double)D.per[0], (double)D.per[1], (double)D.per[2]});
   CartesianDensityGrid grid(D.box(), CoordinateVector< int_fast32_t >(nc[0], nc[1], nc[2]), CoordinateVector< bool >(D.per[0], D.per[1], D.per[2]), false, nullptr);
   const size_t n = grid.get_number_of_cells();
-  if (n != (size_t)nc[0] * nc[1] * nc[2]) VH_VIOL("cartesian/number-of-cells", caseid, "%zu cells for %dx%dx%d", n, nc[0], nc[1], nc[2]);
+  if (n != (size_t)nc[0] * nc[1] * nc[2]) C16_VIOL("cartesian/number-of-cells", caseid, "%zu cells for %dx%dx%d", n, nc[0], nc[1], nc[2]);
   if (caseid < 2) {
     std::printf("SAMPLE cartesian case=%" PRIu64 " anchor=(%.6g,%.6g,%.6g) sides=(%.6g,%.6g,%.6g) cells=%dx%dx%d periodic=%d%d%d locates=%" PRId64 " rays=%" PRId64 "\n", caseid,
                 D.lo[0], D.lo[1], D.lo[2], D.side[0], D.side[1], D.side[2], nc[0], nc[1], nc[2], D.per[0], D.per[1], D.per[2], nloc, nrays);
@@ -933,7 +980,7 @@ static void cartesian_case(uint64_t caseid, vh::Rng r, int64_t nloc, int64_t nra
       C.lo[i][c] = b.get_anchor()[i];
       C.hi[i][c] = top[i];
       if (std::fabs(mid[i] - 0.5 * (C.lo[i][c] + C.hi[i][c])) > 4. * EPS * D.P)
-        VH_VIOL("cartesian/midpoint-not-centre", caseid, "cell %zu axis %d midpoint %.17g box [%.17g,%.17g]", c, i, mid[i], C.lo[i][c], C.hi[i][c]);
+        C16_VIOL("cartesian/midpoint-not-centre", caseid, "cell %zu axis %d midpoint %.17g box [%.17g,%.17g]", c, i, mid[i], C.lo[i][c], C.hi[i][c]);
     }
   }
   check_volume(fam, caseid, grid, D, 1e-12);
@@ -966,7 +1013,7 @@ static void cartesian_case(uint64_t caseid, vh::Rng r, int64_t nloc, int64_t nra
       const CV mid = grid.get_cell_midpoint(c);
       auto ngbs = grid.get_neighbours(c);
       int seen[6] = {0, 0, 0, 0, 0, 0};
-      if (ngbs.size() != 6) VH_VIOL("cartesian/neighbours/count", caseid, "cell %zu has %zu neighbour entries", c, ngbs.size());
+      if (ngbs.size() != 6) C16_VIOL("cartesian/neighbours/count", caseid, "cell %zu has %zu neighbour entries", c, ngbs.size());
       for (auto &e : ngbs) {
         DensityGrid::iterator nit = std::get< 0 >(e);
         const CV fm = std::get< 1 >(e), nrm = std::get< 2 >(e), rel = std::get< 4 >(e);
@@ -975,18 +1022,18 @@ static void cartesian_case(uint64_t caseid, vh::Rng r, int64_t nloc, int64_t nra
         for (int i = 0; i < 3; ++i)
           if (nrm[i] != 0.) ax = (ax == -1) ? i : -2;
         if (ax < 0 || std::fabs(nrm[ax]) != 1.) {
-          VH_VIOL("cartesian/neighbours/normal", caseid, "cell %zu normal (%g,%g,%g)", c, nrm.x(), nrm.y(), nrm.z());
+          C16_VIOL("cartesian/neighbours/normal", caseid, "cell %zu normal (%g,%g,%g)", c, nrm.x(), nrm.y(), nrm.z());
           continue;
         }
         const int sgn = nrm[ax] > 0 ? 1 : 0;
         ++seen[2 * ax + sgn];
         const double aexp = cs[(ax + 1) % 3] * cs[(ax + 2) % 3];
-        if (std::fabs(area - aexp) > 1e-13 * aexp) VH_VIOL("cartesian/neighbours/area", caseid, "cell %zu axis %d area %.17g expected %.17g", c, ax, area, aexp);
+        if (std::fabs(area - aexp) > 1e-13 * aexp) C16_VIOL("cartesian/neighbours/area", caseid, "cell %zu axis %d area %.17g expected %.17g", c, ax, area, aexp);
         for (int i = 0; i < 3; ++i) {
           const double fexp = mid[i] + (i == ax ? 0.5 * cs[i] * nrm[i] : 0.);
           const double rexp = (i == ax ? cs[i] * nrm[i] : 0.);
-          if (std::fabs(fm[i] - fexp) > gtol) VH_VIOL("cartesian/neighbours/face-midpoint", caseid, "cell %zu axis %d face midpoint[%d] %.17g expected %.17g", c, ax, i, fm[i], fexp);
-          if (std::fabs(rel[i] - rexp) > gtol) VH_VIOL("cartesian/neighbours/relative-position", caseid, "cell %zu axis %d rel pos[%d] %.17g expected %.17g", c, ax, i, rel[i], rexp);
+          if (std::fabs(fm[i] - fexp) > gtol) C16_VIOL("cartesian/neighbours/face-midpoint", caseid, "cell %zu axis %d face midpoint[%d] %.17g expected %.17g", c, ax, i, fm[i], fexp);
+          if (std::fabs(rel[i] - rexp) > gtol) C16_VIOL("cartesian/neighbours/relative-position", caseid, "cell %zu axis %d rel pos[%d] %.17g expected %.17g", c, ax, i, rel[i], rexp);
         }
         // who is on the other side?
         CV q = mid;
@@ -997,13 +1044,13 @@ static void cartesian_case(uint64_t caseid, vh::Rng r, int64_t nloc, int64_t nra
           outside = false;
         }
         if (outside) {
-          if (nit != grid.end()) VH_VIOL("cartesian/neighbours/wall", caseid, "cell %zu axis %d sign %d: non-periodic wall but neighbour %zu", c, ax, sgn, (size_t)nit.get_index());
+          if (nit != grid.end()) C16_VIOL("cartesian/neighbours/wall", caseid, "cell %zu axis %d sign %d: non-periodic wall but neighbour %zu", c, ax, sgn, (size_t)nit.get_index());
           g_st.inc("cartesian_wall_neighbours");
           continue;
         }
         const size_t expn = find_cell(q);
         if (nit == grid.end() || nit.get_index() != expn) {
-          VH_VIOL("cartesian/neighbours/wrong-cell", caseid, "cell %zu axis %d sign %d: neighbour %zu, brute force %zu", c, ax, sgn, (size_t)nit.get_index(), expn);
+          C16_VIOL("cartesian/neighbours/wrong-cell", caseid, "cell %zu axis %d sign %d: neighbour %zu, brute force %zu", c, ax, sgn, (size_t)nit.get_index(), expn);
           continue;
         }
         // mutual
@@ -1013,11 +1060,11 @@ static void cartesian_case(uint64_t caseid, vh::Rng r, int64_t nloc, int64_t nra
           const CV nrm2 = std::get< 2 >(e2);
           if (n2 != grid.end() && n2.get_index() == c && nrm2[ax] == -nrm[ax] && std::fabs(std::get< 3 >(e2) - area) <= 1e-13 * area) mutual = true;
         }
-        if (!mutual) VH_VIOL("cartesian/neighbours/not-mutual", caseid, "cell %zu lists %zu (axis %d sign %d) but not vice versa", c, expn, ax, sgn);
+        if (!mutual) C16_VIOL("cartesian/neighbours/not-mutual", caseid, "cell %zu lists %zu (axis %d sign %d) but not vice versa", c, expn, ax, sgn);
         g_st.inc("cartesian_neighbour_pairs_checked");
       }
       for (int k = 0; k < 6; ++k)
-        if (seen[k] != 1) VH_VIOL("cartesian/neighbours/faces-not-once", caseid, "cell %zu: face %d listed %d times", c, k, seen[k]);
+        if (seen[k] != 1) C16_VIOL("cartesian/neighbours/faces-not-once", caseid, "cell %zu: face %d listed %d times", c, k, seen[k]);
     }
   }
   locate_battery(fam, caseid, grid, D, C, r.fork(101), nloc);
@@ -1161,7 +1208,7 @@ static void amrgrid_case(uint64_t caseid, vh::Rng r, int64_t nloc) {
     const uint64_t ret = grid.refine_cell(key);
     S.split(n);
     const uint64_t expret = S.key(S.nodes[n].child[0]);
-    if (ret != expret) VH_VIOL("amrgrid/refine/returned-key", caseid, "refine_cell(0x%" PRIx64 ") returned 0x%" PRIx64 ", first child key by the documented layout 0x%" PRIx64, key, ret, expret);
+    if (ret != expret) C16_VIOL("amrgrid/refine/returned-key", caseid, "refine_cell(0x%" PRIx64 ") returned 0x%" PRIx64 ", first child key by the documented layout 0x%" PRIx64, key, ret, expret);
     for (int c = 0; c < 8; ++c) leaves.push_back(S.nodes[n].child[c]);
     maxdepth = std::max(maxdepth, S.nodes[n].level + 1);
     last = n;
@@ -1179,7 +1226,7 @@ static void amrgrid_case(uint64_t caseid, vh::Rng r, int64_t nloc) {
   // enumeration: first key / next key against the DFS of the shadow
   set_phase(PH_ENUM);
   {
-    if (grid.get_number_of_cells() != nleaf) VH_VIOL("amrgrid/number-of-cells", caseid, "get_number_of_cells %zu, shadow %zu", (size_t)grid.get_number_of_cells(), nleaf);
+    if (grid.get_number_of_cells() != nleaf) C16_VIOL("amrgrid/number-of-cells", caseid, "get_number_of_cells %zu, shadow %zu", (size_t)grid.get_number_of_cells(), nleaf);
     std::vector< uint64_t > got;
     uint64_t key = grid.get_first_key();
     while (key != grid.get_max_key() && got.size() <= nleaf + 8) {
@@ -1194,8 +1241,8 @@ static void amrgrid_case(uint64_t caseid, vh::Rng r, int64_t nloc) {
       for (int n : leaves) b.push_back(S.key(n));
       std::sort(a.begin(), a.end());
       std::sort(b.begin(), b.end());
-      if (a == b) VH_VIOL("amrgrid/enumeration/order", caseid, "first/next key visit the right %zu keys but not in depth-first (Morton) order", nleaf);
-      else VH_VIOL("amrgrid/enumeration/not-exactly-once", caseid, "first/next key enumerate %zu keys, independent DFS finds %zu leaves (sets differ)", got.size(), nleaf);
+      if (a == b) C16_VIOL("amrgrid/enumeration/order", caseid, "first/next key visit the right %zu keys but not in depth-first (Morton) order", nleaf);
+      else C16_VIOL("amrgrid/enumeration/not-exactly-once", caseid, "first/next key enumerate %zu keys, independent DFS finds %zu leaves (sets differ)", got.size(), nleaf);
     }
     g_st.inc("amrgrid_keys_enumerated", got.size());
   }
@@ -1212,12 +1259,12 @@ static void amrgrid_case(uint64_t caseid, vh::Rng r, int64_t nloc) {
       set_w({(double)(key >> 32), (double)(key & 0xffffffffu)});
       AMRGridCell< uint64_t > &cell = grid[key];
       if (!cell.is_single_cell()) {
-        VH_VIOL("amrgrid/leaf-not-single", caseid, "key 0x%" PRIx64 " is a leaf of the shadow but not a single cell", key);
+        C16_VIOL("amrgrid/leaf-not-single", caseid, "key 0x%" PRIx64 " is a leaf of the shadow but not a single cell", key);
         continue;
       }
       cell.value() = i + 1;
       S.nodes[n].id = i + 1;
-      if ((int)cell.get_level() != S.nodes[n].level) VH_VIOL("amrgrid/level", caseid, "key 0x%" PRIx64 " level %d expected %d", key, (int)cell.get_level(), S.nodes[n].level);
+      if ((int)cell.get_level() != S.nodes[n].level) C16_VIOL("amrgrid/level", caseid, "key 0x%" PRIx64 " level %d expected %d", key, (int)cell.get_level(), S.nodes[n].level);
       double lo[3], hi[3];
       S.box_of(n, D, lo, hi);
       const Box<> g = cell.get_geometry();
@@ -1228,15 +1275,15 @@ static void amrgrid_case(uint64_t caseid, vh::Rng r, int64_t nloc) {
         C.hi[a][i] = top[a];
         vol *= D.side[a] / ((double)nb[a] * (double)(1u << S.nodes[n].level));
         if (std::fabs(C.lo[a][i] - lo[a]) > gtol || std::fabs(C.hi[a][i] - hi[a]) > gtol || std::fabs(mid[a] - 0.5 * (lo[a] + hi[a])) > gtol)
-          VH_VIOL("amrgrid/geometry", caseid, "key 0x%" PRIx64 " axis %d: box [%.17g,%.17g] midpoint %.17g, expected [%.17g,%.17g]", key, a, C.lo[a][i], C.hi[a][i], mid[a], lo[a], hi[a]);
+          C16_VIOL("amrgrid/geometry", caseid, "key 0x%" PRIx64 " axis %d: box [%.17g,%.17g] midpoint %.17g, expected [%.17g,%.17g]", key, a, C.lo[a][i], C.hi[a][i], mid[a], lo[a], hi[a]);
       }
-      if (std::fabs(cell.get_volume() - vol) > 1e-13 * vol) VH_VIOL("amrgrid/cell-volume", caseid, "key 0x%" PRIx64 " volume %.17g expected %.17g", key, cell.get_volume(), vol);
+      if (std::fabs(cell.get_volume() - vol) > 1e-13 * vol) C16_VIOL("amrgrid/cell-volume", caseid, "key 0x%" PRIx64 " volume %.17g expected %.17g", key, cell.get_volume(), vol);
       vsum += cell.get_volume();
     }
     const double vbox = D.side[0] * D.side[1] * D.side[2];
     const double rel = std::fabs((double)vsum - vbox) / vbox;
     g_st.maxd("amrgrid_max_rel_volume_error", rel);
-    if (!(rel <= 1e-12)) VH_VIOL("amrgrid/volume-sum", caseid, "sum of leaf volumes %.17g box %.17g (rel %.3g)", (double)vsum, vbox, rel);
+    if (!(rel <= 1e-12)) C16_VIOL("amrgrid/volume-sum", caseid, "sum of leaf volumes %.17g box %.17g (rel %.3g)", (double)vsum, vbox, rel);
     g_st.inc("amrgrid_volume_sums");
   }
   // neighbour pointers of all nodes
@@ -1258,7 +1305,7 @@ static void amrgrid_case(uint64_t caseid, vh::Rng r, int64_t nloc) {
         }
         AMRGridCell< uint64_t > *got = cell.get_ngb(pos[f]);
         if (wall) {
-          if (got != nullptr) VH_VIOL("amrgrid/neighbours/wall", caseid, "node 0x%" PRIx64 " face %d: expected no neighbour at a non-periodic wall", S.key((int)n), f);
+          if (got != nullptr) C16_VIOL("amrgrid/neighbours/wall", caseid, "node 0x%" PRIx64 " face %d: expected no neighbour at a non-periodic wall", S.key((int)n), f);
           g_st.inc("amrgrid_wall_neighbours");
           continue;
         }
@@ -1267,7 +1314,7 @@ static void amrgrid_case(uint64_t caseid, vh::Rng r, int64_t nloc) {
         const int e = S.cover(tt, s.level, s.level);
         AMRGridCell< uint64_t > *exp = &grid[S.key(e)];
         if (got != exp) {
-          VH_VIOL("amrgrid/neighbours/wrong-cell", caseid, "node 0x%" PRIx64 " (level %d) face %d: neighbour is %s, expected node 0x%" PRIx64 " (level %d)", S.key((int)n), s.level, f,
+          C16_VIOL("amrgrid/neighbours/wrong-cell", caseid, "node 0x%" PRIx64 " (level %d) face %d: neighbour is %s, expected node 0x%" PRIx64 " (level %d)", S.key((int)n), s.level, f,
                   got ? "another cell" : "null", S.key(e), S.nodes[e].level);
           continue;
         }
@@ -1276,7 +1323,7 @@ static void amrgrid_case(uint64_t caseid, vh::Rng r, int64_t nloc) {
         bool ok = false;
         for (int anc = (int)n; anc >= 0; anc = S.nodes[anc].parent)
           if (back == &grid[S.key(anc)]) ok = true;
-        if (!ok) VH_VIOL("amrgrid/neighbours/not-mutual", caseid, "node 0x%" PRIx64 " face %d: the neighbour's opposite pointer is neither this node nor one of its ancestors", S.key((int)n), f);
+        if (!ok) C16_VIOL("amrgrid/neighbours/not-mutual", caseid, "node 0x%" PRIx64 " face %d: the neighbour's opposite pointer is neither this node nor one of its ancestors", S.key((int)n), f);
         g_st.inc("amrgrid_neighbour_pointers_checked");
         if (S.nodes[e].level < s.level) g_st.inc("amrgrid_neighbours_coarser");
       }
@@ -1301,16 +1348,16 @@ static void amrgrid_case(uint64_t caseid, vh::Rng r, int64_t nloc) {
     const uint64_t id = grid.get_cell(p);
     size_t idx = (id >= 1 && id <= nleaf) ? (size_t)(id - 1) : (size_t)-1;
     if (idx == (size_t)-1) {
-      VH_VIOL((fam + "/locate/not-a-leaf@" + reg).c_str(), caseid, "get_cell(%.17g,%.17g,%.17g) returns contents %" PRIu64 " which is no leaf (1..%zu)", p.x(), p.y(), p.z(), id, nleaf);
+      C16_VIOL((fam + "/locate/not-a-leaf@" + reg).c_str(), caseid, "get_cell(%.17g,%.17g,%.17g) returns contents %" PRIu64 " which is no leaf (1..%zu)", p.x(), p.y(), p.z(), id, nleaf);
       return;
     }
     const ScanResult s = scan_cells(C, p, tol, idx);
     if (!s.located_loose)
-      VH_VIOL((fam + "/locate/cell-does-not-contain@" + reg).c_str(), caseid, "position (%.17g,%.17g,%.17g) located in leaf [%.17g,%.17g]x[%.17g,%.17g]x[%.17g,%.17g]", p.x(), p.y(), p.z(), C.lo[0][idx],
+      C16_VIOL((fam + "/locate/cell-does-not-contain@" + reg).c_str(), caseid, "position (%.17g,%.17g,%.17g) located in leaf [%.17g,%.17g]x[%.17g,%.17g]x[%.17g,%.17g]", p.x(), p.y(), p.z(), C.lo[0][idx],
               C.hi[0][idx], C.lo[1][idx], C.hi[1][idx], C.lo[2][idx], C.hi[2][idx]);
-    if (s.nloose == 0) VH_VIOL((fam + "/locate/in-no-cell@" + reg).c_str(), caseid, "position (%.17g,%.17g,%.17g) lies in no leaf box", p.x(), p.y(), p.z());
-    if (s.nstrict > 1) VH_VIOL((fam + "/locate/in-several-cells@" + reg).c_str(), caseid, "position (%.17g,%.17g,%.17g) lies strictly inside %zu leaves", p.x(), p.y(), p.z(), s.nstrict);
-    if (s.nstrict == 1 && s.first_strict != idx) VH_VIOL((fam + "/locate/wrong-cell@" + reg).c_str(), caseid, "position (%.17g,%.17g,%.17g) strictly inside leaf %zu, located in %zu", p.x(), p.y(), p.z(), s.first_strict, idx);
+    if (s.nloose == 0) C16_VIOL((fam + "/locate/in-no-cell@" + reg).c_str(), caseid, "position (%.17g,%.17g,%.17g) lies in no leaf box", p.x(), p.y(), p.z());
+    if (s.nstrict > 1) C16_VIOL((fam + "/locate/in-several-cells@" + reg).c_str(), caseid, "position (%.17g,%.17g,%.17g) lies strictly inside %zu leaves", p.x(), p.y(), p.z(), s.nstrict);
+    if (s.nstrict == 1 && s.first_strict != idx) C16_VIOL((fam + "/locate/wrong-cell@" + reg).c_str(), caseid, "position (%.17g,%.17g,%.17g) strictly inside leaf %zu, located in %zu", p.x(), p.y(), p.z(), s.first_strict, idx);
     if (s.nstrict == 1 && s.nloose == 1) g_st.inc("amrgrid_locates_unique_strict");
     // key of the deepest cell: must be a leaf whose box contains p
     const uint64_t k = grid.get_key(p);
@@ -1319,9 +1366,9 @@ static void amrgrid_case(uint64_t caseid, vh::Rng r, int64_t nloc) {
       if (S.key(leaves[j]) == k) {
         found = true;
         const ScanResult s2 = scan_cells(C, p, tol, j);
-        if (!s2.located_loose) VH_VIOL((fam + "/get_key/cell-does-not-contain@" + reg).c_str(), caseid, "get_key(%.17g,%.17g,%.17g) = 0x%" PRIx64 " whose box does not contain it", p.x(), p.y(), p.z(), k);
+        if (!s2.located_loose) C16_VIOL((fam + "/get_key/cell-does-not-contain@" + reg).c_str(), caseid, "get_key(%.17g,%.17g,%.17g) = 0x%" PRIx64 " whose box does not contain it", p.x(), p.y(), p.z(), k);
       }
-    if (!found) VH_VIOL((fam + "/get_key/not-a-leaf@" + reg).c_str(), caseid, "get_key(%.17g,%.17g,%.17g) = 0x%" PRIx64 " is not the key of a leaf", p.x(), p.y(), p.z(), k);
+    if (!found) C16_VIOL((fam + "/get_key/not-a-leaf@" + reg).c_str(), caseid, "get_key(%.17g,%.17g,%.17g) = 0x%" PRIx64 " is not the key of a leaf", p.x(), p.y(), p.z(), k);
     // key on a given (coarser or equal) level: an ancestor-or-self of a containing leaf on that level
     if (s.nstrict == 1 && s.nloose == 1) {
       const int n = leaves[s.first_strict];
@@ -1329,7 +1376,7 @@ static void amrgrid_case(uint64_t caseid, vh::Rng r, int64_t nloc) {
       int anc = n;
       while (S.nodes[anc].level > lev) anc = S.nodes[anc].parent;
       const uint64_t kl = grid.get_key((uint_fast8_t)lev, p);
-      if (kl != S.key(anc)) VH_VIOL((fam + "/get_key/level-key@" + reg).c_str(), caseid, "get_key(level %d, (%.17g,%.17g,%.17g)) = 0x%" PRIx64 ", expected 0x%" PRIx64, lev, p.x(), p.y(), p.z(), kl, S.key(anc));
+      if (kl != S.key(anc)) C16_VIOL((fam + "/get_key/level-key@" + reg).c_str(), caseid, "get_key(level %d, (%.17g,%.17g,%.17g)) = 0x%" PRIx64 ", expected 0x%" PRIx64, lev, p.x(), p.y(), p.z(), kl, S.key(anc));
       g_st.inc("amrgrid_level_keys_checked");
     }
   });
@@ -1381,10 +1428,10 @@ public:
       ix[a] = (uint32_t)std::llround(q);
       vexp *= D.side[a] / cnt;
       if (std::fabs(q - std::round(q)) > 1e-6)
-        VH_VIOL("amr/refine/midpoint-not-on-level-lattice", g_amr_case, "refine(level %d) called with a cell whose midpoint[%d]=%.17g is not a level-%d cell centre", (int)level, a, mid[a], (int)level);
+        C16_VIOL("amr/refine/midpoint-not-on-level-lattice", g_amr_case, "refine(level %d) called with a cell whose midpoint[%d]=%.17g is not a level-%d cell centre", (int)level, a, mid[a], (int)level);
     }
     if (std::fabs(cell.get_volume() - vexp) > 1e-12 * vexp)
-      VH_VIOL("amr/refine/level-volume-mismatch", g_amr_case, "refine(level %d): cell volume %.17g, a level-%d cell has %.17g", (int)level, cell.get_volume(), (int)level, vexp);
+      C16_VIOL("amr/refine/level-volume-mismatch", g_amr_case, "refine(level %d): cell volume %.17g, a level-%d cell has %.17g", (int)level, cell.get_volume(), (int)level, vexp);
     g_st.inc("amr_refine_callbacks");
     return P.decide(g_amr_epoch, level, ix);
   }
@@ -1437,7 +1484,7 @@ static void amr_case(uint64_t caseid, vh::Rng r, int64_t nloc, int64_t nrays) {
   S.init(P.nb);
   for (int b : std::vector< int >(S.blocks)) S.split_to_level(b, L0);
   if (grid.get_number_of_cells() != (size_t)ncell[0] * ncell[1] * ncell[2])
-    VH_VIOL("amr/number-of-cells", caseid, "%zu cells after construction with %ux%ux%u", (size_t)grid.get_number_of_cells(), ncell[0], ncell[1], ncell[2]);
+    C16_VIOL("amr/number-of-cells", caseid, "%zu cells after construction with %ux%ux%u", (size_t)grid.get_number_of_cells(), ncell[0], ncell[1], ncell[2]);
   UnitDensityFunction df;
   df.initialize();
   set_phase(PH_REFINE);
@@ -1469,7 +1516,7 @@ static void amr_case(uint64_t caseid, vh::Rng r, int64_t nloc, int64_t nrays) {
   // clause 3: every shadow leaf is one cell index, and vice versa
   set_phase(PH_ENUM);
   const size_t n = grid.get_number_of_cells();
-  if (n != nleaf) VH_VIOL("amr/enumeration/number-of-cells", caseid, "grid has %zu cells, the independent refinement model %zu leaves", n, nleaf);
+  if (n != nleaf) C16_VIOL("amr/enumeration/number-of-cells", caseid, "grid has %zu cells, the independent refinement model %zu leaves", n, nleaf);
   check_iteration(fam, caseid, grid);
   set_phase(PH_STRUCT);
   BoxCells C;
@@ -1498,19 +1545,19 @@ static void amr_case(uint64_t caseid, vh::Rng r, int64_t nloc, int64_t nrays) {
         if (std::fabs(q - std::round(q)) > 1e-6 || q < -0.5 || q > cnt) ok = false;
       }
       if (!ok) {
-        if (++bad <= 3) VH_VIOL("amr/enumeration/cell-not-on-lattice", caseid, "cell %zu: midpoint (%.17g,%.17g,%.17g) volume %.17g is not a cell of any level", c, mid.x(), mid.y(), mid.z(), vol);
+        if (++bad <= 3) C16_VIOL("amr/enumeration/cell-not-on-lattice", caseid, "cell %zu: midpoint (%.17g,%.17g,%.17g) volume %.17g is not a cell of any level", c, mid.x(), mid.y(), mid.z(), vol);
         for (int a = 0; a < 3; ++a) C.lo[a][c] = C.hi[a][c] = D.lo[a];
         continue;
       }
       auto itf = byid.find(pack(level, ix));
       if (itf == byid.end()) {
-        if (++bad <= 3) VH_VIOL("amr/enumeration/unexpected-cell", caseid, "cell %zu (level %d at %u,%u,%u) is not a leaf of the independent refinement model", c, level, ix[0], ix[1], ix[2]);
+        if (++bad <= 3) C16_VIOL("amr/enumeration/unexpected-cell", caseid, "cell %zu (level %d at %u,%u,%u) is not a leaf of the independent refinement model", c, level, ix[0], ix[1], ix[2]);
         continue;
       }
-      if (++hit[itf->second] > 1 && ++bad <= 3) VH_VIOL("amr/enumeration/cell-twice", caseid, "leaf (level %d at %u,%u,%u) appears under two cell indices", level, ix[0], ix[1], ix[2]);
+      if (++hit[itf->second] > 1 && ++bad <= 3) C16_VIOL("amr/enumeration/cell-twice", caseid, "leaf (level %d at %u,%u,%u) appears under two cell indices", level, ix[0], ix[1], ix[2]);
     }
     for (int nd : leaves)
-      if (!hit[nd] && ++bad <= 6) VH_VIOL("amr/enumeration/missing-cell", caseid, "leaf (level %d at %u,%u,%u) of the independent refinement model is no cell of the grid", S.nodes[nd].level, S.nodes[nd].ix[0], S.nodes[nd].ix[1], S.nodes[nd].ix[2]);
+      if (!hit[nd] && ++bad <= 6) C16_VIOL("amr/enumeration/missing-cell", caseid, "leaf (level %d at %u,%u,%u) of the independent refinement model is no cell of the grid", S.nodes[nd].level, S.nodes[nd].ix[0], S.nodes[nd].ix[1], S.nodes[nd].ix[2]);
     g_st.inc("amr_leaves_matched", n);
   }
   check_volume(fam, caseid, grid, D, 1e-12);
@@ -1647,20 +1694,22 @@ static void voronoi_case(uint64_t caseid, vh::Rng r, int64_t nloc, int64_t nrays
   g_st.inc("voronoi_grids_" + type);
   g_st.inc(std::string("voronoi_grids_") + gkn[gk]);
   set_phase(PH_STRUCT);
-  if (grid.get_number_of_cells() != n) VH_VIOL("voronoi/number-of-cells", caseid, "%zu cells for %zu generators", (size_t)grid.get_number_of_cells(), n);
+  if (grid.get_number_of_cells() != n) C16_VIOL("voronoi/number-of-cells", caseid, "%zu cells for %zu generators", (size_t)grid.get_number_of_cells(), n);
   for (size_t c = 0; c < n; ++c) {
     const CV m = grid.get_cell_midpoint(c);
     if (absmax3(m - gen[c]) > 0.) {
-      VH_VIOL("voronoi/generator-moved", caseid, "cell %zu generator (%.17g,%.17g,%.17g) reported as (%.17g,%.17g,%.17g)", c, gen[c].x(), gen[c].y(), gen[c].z(), m.x(), m.y(), m.z());
+      C16_VIOL("voronoi/generator-moved", caseid, "cell %zu generator (%.17g,%.17g,%.17g) reported as (%.17g,%.17g,%.17g)", c, gen[c].x(), gen[c].y(), gen[c].z(), m.x(), m.y(), m.z());
       break;
     }
   }
-  check_volume(fam, caseid, grid, D, 1e-10);
+  check_volume(fam, caseid, grid, D, 1e-8);
   check_iteration(fam, caseid, grid);
   // neighbours
   set_phase(PH_NEIGHBOURS);
   const double area_floor = 1e-10 * D.L * D.L;
-  const double gtol = 1e-9 * D.L;
+  // positional accuracy of faces: the old construction treats vertices within 2e-10 |sides|^2 / |normal| of a cutting plane as on
+  // it (OLDVORONOI_TOLERANCE), i.e. ~1e-9 |sides| for cells a tenth of the box; the geometry itself is C15's subject
+  const double gtol = 1e-8 * CV(D.side[0], D.side[1], D.side[2]).norm();
   {
     std::vector< std::vector< std::tuple< DensityGrid::iterator, CV, CV, double, CV > > > all(n);
     for (size_t c = 0; c < n; ++c) all[c] = grid.get_neighbours(c);
@@ -1678,40 +1727,42 @@ static void voronoi_case(uint64_t caseid, vh::Rng r, int64_t nloc, int64_t nrays
           for (int i = 0; i < 3; ++i)
             if (nrm[i] != 0.) ax = (ax == -1) ? i : -2;
           if (ax < 0) {
-            VH_VIOL("voronoi/neighbours/wall-normal", caseid, "cell %zu wall normal (%g,%g,%g)", c, nrm.x(), nrm.y(), nrm.z());
+            C16_VIOL("voronoi/neighbours/wall-normal", caseid, "cell %zu wall normal (%g,%g,%g)", c, nrm.x(), nrm.y(), nrm.z());
             continue;
           }
           const double wall = nrm[ax] > 0. ? D.hi[ax] : D.lo[ax];
-          if (std::fabs(fm[ax] - wall) > gtol) VH_VIOL("voronoi/neighbours/wall-face-not-on-wall", caseid, "cell %zu wall face midpoint[%d]=%.17g wall %.17g", c, ax, fm[ax], wall);
+          if (std::fabs(fm[ax] - wall) > gtol) C16_VIOL("voronoi/neighbours/wall-face-not-on-wall", caseid, "cell %zu wall face midpoint[%d]=%.17g wall %.17g", c, ax, fm[ax], wall);
           g_st.inc("voronoi_wall_faces");
           continue;
         }
         const size_t j = nit.get_index();
         if (j >= n || j == c) {
-          VH_VIOL("voronoi/neighbours/index", caseid, "cell %zu lists neighbour %zu", c, j);
+          C16_VIOL("voronoi/neighbours/index", caseid, "cell %zu lists neighbour %zu", c, j);
           continue;
         }
         // the face lies on the bisector plane, the normal points to the neighbour
         const CV gd = gen[j] - gen[c];
         const double gl = gd.norm();
         const double off = dot(fm - 0.5 * (gen[c] + gen[j]), gd) / gl;
-        if (std::fabs(off) > gtol) VH_VIOL("voronoi/neighbours/face-off-bisector", caseid, "cells %zu,%zu: face midpoint %.3g off the bisector plane", c, j, off);
+        if (std::fabs(off) > gtol) C16_VIOL("voronoi/neighbours/face-off-bisector", caseid, "cells %zu,%zu: face midpoint %.3g off the bisector plane", c, j, off);
         const CV rel = std::get< 4 >(e);
         if (absmax3(rel - gd) > gtol)
-          VH_VIOL("voronoi/neighbours/relative-position", caseid,
+          C16_VIOL("voronoi/neighbours/relative-position", caseid,
                   "cells %zu,%zu in a non-periodic box: relative position reported (%.17g,%.17g,%.17g), generators differ by (%.17g,%.17g,%.17g); box sides (%.17g,%.17g,%.17g)", c, j, rel.x(),
                   rel.y(), rel.z(), gd.x(), gd.y(), gd.z(), D.side[0], D.side[1], D.side[2]);
         else if (absmax3(nrm - CV(gd.x() / gl, gd.y() / gl, gd.z() / gl)) > 1e-9)
-          VH_VIOL("voronoi/neighbours/normal", caseid, "cells %zu,%zu: normal does not point to the neighbour", c, j);
+          C16_VIOL("voronoi/neighbours/normal", caseid, "cells %zu,%zu: normal does not point to the neighbour", c, j);
         bool mutual = false;
         for (auto &e2 : all[j]) {
           DensityGrid::iterator n2 = std::get< 0 >(e2);
           if (n2 != grid.end() && n2.get_index() == c) {
+            mutual = true;
             const double a2 = std::get< 3 >(e2);
-            if (std::fabs(a2 - area) <= 1e-8 * std::fmax(area, a2) + area_floor && absmax3(std::get< 1 >(e2) - fm) <= 1e-7 * D.L) mutual = true;
+            if (std::fabs(a2 - area) > 1e-6 * std::fmax(area, a2) + 1e-6 * D.L * D.L)
+              C16_VIOL("voronoi/neighbours/face-area-differs", caseid, "cells %zu,%zu: the shared face has area %.17g seen from one side and %.17g from the other", c, j, area, a2);
           }
         }
-        if (!mutual) VH_VIOL("voronoi/neighbours/not-mutual", caseid, "cell %zu lists %zu over a face of area %.6g (box side^2 %.6g) but %zu has no matching face", c, j, area, D.L * D.L, j);
+        if (!mutual) C16_VIOL("voronoi/neighbours/not-mutual", caseid, "cell %zu lists %zu over a face of area %.6g (box side^2 %.6g) but %zu does not list %zu", c, j, area, D.L * D.L, j, c);
         g_st.inc("voronoi_neighbour_faces_checked");
       }
     }
@@ -1755,7 +1806,7 @@ static void voronoi_case(uint64_t caseid, vh::Rng r, int64_t nloc, int64_t nrays
       g_st.inc("voronoi_locates");
       g_st.inc("voronoi_locates_" + reg);
       if (idx >= n) {
-        VH_VIOL((fam + "/locate/index-out-of-range@" + reg).c_str(), caseid, "position (%.17g,%.17g,%.17g) located in cell %zu of %zu", p.x(), p.y(), p.z(), idx, n);
+        C16_VIOL((fam + "/locate/index-out-of-range@" + reg).c_str(), caseid, "position (%.17g,%.17g,%.17g) located in cell %zu of %zu", p.x(), p.y(), p.z(), idx, n);
         return;
       }
       double dmin = DBL_MAX;
@@ -1771,7 +1822,7 @@ static void voronoi_case(uint64_t caseid, vh::Rng r, int64_t nloc, int64_t nrays
         if ((gen[c] - p).norm() <= dmin + dtol) ++nnear;
       const double dl = (gen[idx] - p).norm();
       if (dl > dmin + dtol)
-        VH_VIOL((fam + "/locate/not-nearest-generator@" + reg).c_str(), caseid, "position (%.17g,%.17g,%.17g) located in cell %zu at distance %.17g, generator %zu is at %.17g", p.x(), p.y(), p.z(), idx, dl, imin, dmin);
+        C16_VIOL((fam + "/locate/not-nearest-generator@" + reg).c_str(), caseid, "position (%.17g,%.17g,%.17g) located in cell %zu at distance %.17g, generator %zu is at %.17g", p.x(), p.y(), p.z(), idx, dl, imin, dmin);
       if (nnear == 1) g_st.inc("voronoi_locates_unique");
       else g_st.inc("voronoi_locates_equidistant");
       // the faces of the located cell contain the position
@@ -1782,7 +1833,7 @@ static void voronoi_case(uint64_t caseid, vh::Rng r, int64_t nloc, int64_t nrays
           CV outw = std::get< 2 >(e);
           if (std::get< 0 >(e) != grid.end()) outw = normalized(gen[std::get< 0 >(e).get_index()] - gen[idx]);
           const double sd = dot(p - std::get< 1 >(e), outw);
-          if (sd > gtol) VH_VIOL((fam + "/locate/outside-a-face@" + reg).c_str(), caseid, "position (%.17g,%.17g,%.17g) located in cell %zu but %.3g outside one of its faces", p.x(), p.y(), p.z(), idx, sd);
+          if (sd > gtol) C16_VIOL((fam + "/locate/outside-a-face@" + reg).c_str(), caseid, "position (%.17g,%.17g,%.17g) located in cell %zu but %.3g outside one of its faces", p.x(), p.y(), p.z(), idx, sd);
         }
         g_st.inc("voronoi_locates_face_checked");
       }
@@ -1846,7 +1897,7 @@ static void voronoi_case(uint64_t caseid, vh::Rng r, int64_t nloc, int64_t nrays
     harvest(grid, O, obs);
     // tolerances: positions are pushed forward by 1e-12 |sides| without a deposit (documented in interact), the
     // crossing parameters are conditioned by the incidence cosine of the crossed faces
-    RayTol T{8. * EPS * D.P, 1., 1000. * nudge_eps, 4. * nudge_eps};
+    RayTol T{8. * EPS * D.P, 1., 1000. * nudge_eps, 4. * nudge_eps, gtol};
     check_ray(fam, reg, caseid, i, D, R, O, obs, o, d, tau_target, T, mincell, true);
   });
 }
@@ -1906,7 +1957,7 @@ static double pdist(const Domain &D, bool periodic, const CV &a, const CV &b) {
 static void search_case(uint64_t caseid, vh::Rng r, int64_t nq) {
   const std::string fam = "search";
   Domain D = random_domain(r, false, 4.);
-  const int pk = r.below(4);
+  const int pk = r.below(5) % 4 == 2 || r.chance(0.15) ? 2 : (int)r.below(4);
   const size_t n = 2 + r.below(r.chance(0.3) ? 30 : 1500);
   std::vector< CV > pts;
   make_points(r, D, pk, n, pts);
@@ -1945,7 +1996,7 @@ static void search_case(uint64_t caseid, vh::Rng r, int64_t nq) {
     return c;
   };
   // ---- Octree
-  run_batch(fam, PH_OCTREE_BUILD, caseid, 1, 100., [&](int64_t) {
+  run_batch(fam, PH_OCTREE_BUILD, caseid, 1, 5., [&](int64_t) {
     set_phase(PH_OCTREE_BUILD);
     set_w({(double)np, (double)pk, (double)periodic});
     std::vector< CV > tp(pts); // the tree may move exact duplicates; we have none
@@ -1956,10 +2007,11 @@ static void search_case(uint64_t caseid, vh::Rng r, int64_t nq) {
     // a few smoothing lengths exactly equal to the distance to a later query point are set inside the battery
     tree.set_auxiliaries(h, Octree::max< double >);
     for (size_t i = 0; i < np; ++i)
-      if (absmax3(tp[i] - pts[i]) != 0.) VH_VIOL("search/octree/moved-a-point", caseid, "point %zu was moved by the tree", i);
-    run_batch(fam, PH_OCTREE_QUERY, caseid, nq, 0., [&](int64_t i) {
+      if (absmax3(tp[i] - pts[i]) != 0.) C16_VIOL("search/octree/moved-a-point", caseid, "point %zu was moved by the tree", i);
+    // lattice sets: in addition every point queries itself (a point lost from the tree shows up at once)
+    run_batch(fam, PH_OCTREE_QUERY, caseid, nq + (pk == 2 ? (int64_t)np : 0), 0., [&](int64_t i) {
       vh::Rng rr = r.fork(7000 + i);
-      const CV c = query_point(rr);
+      const CV c = i < nq ? query_point(rr) : pts[i - nq];
       set_w({c.x(), c.y(), c.z(), 1.});
       // nearest neighbour
       const uint_fast32_t got = tree.get_closest_ngb(c);
@@ -1973,9 +2025,10 @@ static void search_case(uint64_t caseid, vh::Rng r, int64_t nq) {
         }
       }
       if (got >= np || pdist(D, periodic, pts[got], c) != dmin)
-        VH_VIOL(periodic ? "search/octree/closest@periodic" : "search/octree/closest@open", caseid, "query (%.17g,%.17g,%.17g): tree answers point %zu at distance %.17g, brute force point %zu at %.17g", c.x(),
+        C16_VIOL("search/octree/closest", caseid, "query (%.17g,%.17g,%.17g): tree answers point %zu at distance %.17g, brute force point %zu at %.17g", c.x(),
                 c.y(), c.z(), (size_t)got, got < np ? pdist(D, periodic, pts[got], c) : -1., imin, dmin);
       g_st.inc("search_octree_closest");
+      g_st.inc(periodic ? "search_octree_queries_periodic" : "search_octree_queries_open");
       // smoothing-length overlap: all i with |p_i - c| <= h_i
       std::vector< uint_fast32_t > ng = tree.get_ngbs(c);
       std::sort(ng.begin(), ng.end());
@@ -1983,7 +2036,7 @@ static void search_case(uint64_t caseid, vh::Rng r, int64_t nq) {
       for (size_t k = 0; k < np; ++k)
         if (pdist(D, periodic, pts[k], c) <= h[k]) bf.push_back(k);
       if (ng != bf)
-        VH_VIOL(periodic ? "search/octree/ngbs@periodic" : "search/octree/ngbs@open", caseid, "query (%.17g,%.17g,%.17g): tree finds %zu smoothing spheres containing it, brute force %zu", c.x(), c.y(), c.z(), ng.size(),
+        C16_VIOL("search/octree/ngbs", caseid, "get_ngbs(%.17g,%.17g,%.17g): tree finds %zu smoothing spheres containing it, brute force %zu", c.x(), c.y(), c.z(), ng.size(),
                 bf.size());
       g_st.inc("search_octree_ngbs");
       if (!bf.empty()) g_st.inc("search_octree_ngbs_nonempty");
@@ -1996,7 +2049,7 @@ static void search_case(uint64_t caseid, vh::Rng r, int64_t nq) {
       for (size_t k = 0; k < np; ++k)
         if (pdist(D, periodic, pts[k], c) <= h[k] + rad) bf.push_back(k);
       if (ns != bf)
-        VH_VIOL(periodic ? "search/octree/ngbs-sphere@periodic" : "search/octree/ngbs-sphere@open", caseid, "query (%.17g,%.17g,%.17g) radius %.17g: tree %zu, brute force %zu", c.x(), c.y(), c.z(), rad, ns.size(),
+        C16_VIOL("search/octree/ngbs", caseid, "get_ngbs_sphere(%.17g,%.17g,%.17g; radius %.17g): tree %zu, brute force %zu", c.x(), c.y(), c.z(), rad, ns.size(),
                 bf.size());
       g_st.inc("search_octree_sphere");
       // list of centres
@@ -2014,14 +2067,14 @@ static void search_case(uint64_t caseid, vh::Rng r, int64_t nq) {
             if (pdist(D, periodic, pts[k], cc) <= h[k]) in = true;
           if (in) bf.push_back(k);
         }
-        if (nl != bf) VH_VIOL(periodic ? "search/octree/ngbs-list@periodic" : "search/octree/ngbs-list@open", caseid, "list of %zu centres starting at (%.17g,%.17g,%.17g): tree %zu, brute force %zu", m, cl[0].x(),
+        if (nl != bf) C16_VIOL("search/octree/ngbs", caseid, "get_ngbs_list of %zu centres starting at (%.17g,%.17g,%.17g): tree %zu, brute force %zu", m, cl[0].x(),
                               cl[0].y(), cl[0].z(), nl.size(), bf.size());
         g_st.inc("search_octree_list");
       }
     });
   });
   // ---- PointLocations
-  run_batch(fam, PH_PL_BUILD, caseid, 1, 100., [&](int64_t) {
+  run_batch(fam, PH_PL_BUILD, caseid, 1, 5., [&](int64_t) {
     set_phase(PH_PL_BUILD);
     bool with_box = r.chance(0.6);
     { // the automatic bounding box (only used by unit tests; every caller in the code passes a box) needs a non-degenerate range
@@ -2063,7 +2116,7 @@ static void search_case(uint64_t caseid, vh::Rng r, int64_t nq) {
         }
       }
       if (got >= np || (pts[got] - c).norm2() != dmin)
-        VH_VIOL("search/pointlocations/closest", caseid, "query (%.17g,%.17g,%.17g): answer point %zu at squared distance %.17g, brute force point %zu at %.17g", c.x(), c.y(), c.z(), (size_t)got,
+        C16_VIOL("search/pointlocations/closest", caseid, "query (%.17g,%.17g,%.17g): answer point %zu at squared distance %.17g, brute force point %zu at %.17g", c.x(), c.y(), c.z(), (size_t)got,
                 got < np ? (pts[got] - c).norm2() : -1., imin, dmin);
       g_st.inc("search_pointlocations_closest");
       // the neighbour iterator of a point: after each step, every point closer than sqrt(max_radius2) has been delivered
@@ -2084,7 +2137,7 @@ static void search_case(uint64_t caseid, vh::Rng r, int64_t nq) {
           const double r2 = it.get_max_radius2();
           for (size_t k = 0; k < np; ++k)
             if (!delivered[k] && (pts[k] - pts[idx]).norm2() < r2 * (1. - 1e-12)) {
-              VH_VIOL("search/pointlocations/iterator-missed-a-closer-point", caseid, "point %zu: after %zu range increases all points within %.17g should have been delivered, point %zu at %.17g was not", idx, steps,
+              C16_VIOL("search/pointlocations/iterator-missed-a-closer-point", caseid, "point %zu: after %zu range increases all points within %.17g should have been delivered, point %zu at %.17g was not", idx, steps,
                       std::sqrt(r2), k, (pts[k] - pts[idx]).norm());
               more = false;
               break;
@@ -2094,7 +2147,7 @@ static void search_case(uint64_t caseid, vh::Rng r, int64_t nq) {
             if (k < np) ++delivered[k];
           }
           if (++steps > 100000) {
-            VH_VIOL("search/pointlocations/iterator-does-not-end", caseid, "point %zu: more than %zu range increases", idx, steps);
+            C16_VIOL("search/pointlocations/iterator-does-not-end", caseid, "point %zu: more than %zu range increases", idx, steps);
             break;
           }
         }
@@ -2102,8 +2155,8 @@ static void search_case(uint64_t caseid, vh::Rng r, int64_t nq) {
           size_t twice = 0;
           for (size_t k = 0; k < np; ++k)
             if (delivered[k] > 1) ++twice;
-          if (ndel != np && !vh::g_nviol) VH_VIOL("search/pointlocations/iterator-not-all-points", caseid, "point %zu: the exhausted iterator delivered %zu of %zu points", idx, ndel, np);
-          if (twice) VH_VIOL("search/pointlocations/iterator-point-twice", caseid, "point %zu: %zu points were delivered more than once", idx, twice);
+          if (ndel != np && !vh::g_nviol) C16_VIOL("search/pointlocations/iterator-not-all-points", caseid, "point %zu: the exhausted iterator delivered %zu of %zu points", idx, ndel, np);
+          if (twice) C16_VIOL("search/pointlocations/iterator-point-twice", caseid, "point %zu: %zu points were delivered more than once", idx, twice);
         }
         g_st.inc("search_pointlocations_iterators");
         g_st.inc("search_pointlocations_iterator_steps", steps);
@@ -2126,12 +2179,12 @@ static void search_case(uint64_t caseid, vh::Rng r, int64_t nq) {
       for (int a = 0; a < 3; ++a) {
         const double f = (c[a] - D.lo[a]) / D.side[a] * 2097151.;
         if (!(b[a] <= f + 1e-6 && f < b[a] + 1. + 1e-6) || key >> 63)
-          VH_VIOL("search/morton/key-does-not-encode-position", caseid, "position (%.17g,%.17g,%.17g): key 0x%" PRIx64 " decodes to %u on axis %d, scaled coordinate %.9f", c.x(), c.y(), c.z(), key, b[a], a, f);
+          C16_VIOL("search/morton/key-does-not-encode-position", caseid, "position (%.17g,%.17g,%.17g): key 0x%" PRIx64 " decodes to %u on axis %d, scaled coordinate %.9f", c.x(), c.y(), c.z(), key, b[a], a, f);
       }
       if (q) { // componentwise smaller-or-equal position => smaller-or-equal key
         CV lo = CV::min(c, prevp);
         const uint64_t klo = mk.get_key(lo);
-        if (klo > key || klo > prevkey) VH_VIOL("search/morton/not-monotone", caseid, "key of the componentwise minimum 0x%" PRIx64 " exceeds 0x%" PRIx64 " / 0x%" PRIx64, klo, key, prevkey);
+        if (klo > key || klo > prevkey) C16_VIOL("search/morton/not-monotone", caseid, "key of the componentwise minimum 0x%" PRIx64 " exceeds 0x%" PRIx64 " / 0x%" PRIx64, klo, key, prevkey);
       }
       prevkey = key;
       prevp = c;
@@ -2163,12 +2216,15 @@ int main(int argc, char **argv) {
   g_keep_stderr = vh::arg_flag(argc, argv, "--stderr");
   g_tscale = vh::arg_f(argc, argv, "--tscale", 1.);
   g_debug_ray = (int64_t)vh::arg_u64(argc, argv, "--debugray", (uint64_t)-1);
+  g_inject = vh::arg_f(argc, argv, "--inject", 0.);
 #ifdef _OPENMP
   omp_set_num_threads(1);
 #endif
   g_sh = (Shared *)mmap(nullptr, sizeof(Shared), PROT_READ | PROT_WRITE, MAP_SHARED | MAP_ANONYMOUS, -1, 0);
   if (g_sh == MAP_FAILED) return 3;
   g_sh->nviol = 0;
+  g_key_print_limit = (uint32_t)vh::arg_u64(argc, argv, "--perkey", 1);
+  if (only >= 0) g_key_print_limit = 1000;
   uint64_t famtag = 0;
   for (char ch : family) famtag = famtag * 131 + (unsigned char)ch;
   vh::Rng master(seed * 1000003ull + 16 + famtag * 7919ull);
